@@ -3,6 +3,7 @@
 //! Sub-commands read newline-delimited JSON cases on stdin and write one JSON result per line.
 //!   vh tmpl    template groups  -> diagnostics, artefacts, stringify, AST projection, cursor trace
 //!   vh css     stylesheets      -> outputs, re-tokenised outputs, warnings, source maps
+//!   vh total   one text through every entry point of both compilers (C01), sizes and timings only
 //!   vh tables  pure functions   -> identifier table, escape table, path resolution table
 //!
 //! Panics in the code under test are caught and reported as data (`"panic": "<msg>"`).
@@ -11,6 +12,7 @@ mod ast;
 mod css;
 mod tables;
 mod tmpl;
+mod total;
 
 use std::io::{BufRead, Write};
 
@@ -44,7 +46,7 @@ fn main() {
     // `--announce`: print the case id on stderr before starting it (for the C01 supervisor)
     let announce = args.iter().any(|a| a == "--announce");
     match cmd {
-        "tmpl" | "css" => {
+        "tmpl" | "css" | "total" => {
             for line in stdin.lock().lines() {
                 let line = line.expect("stdin");
                 if line.trim().is_empty() {
@@ -62,10 +64,10 @@ fn main() {
                     writeln!(out, "{}", serde_json::json!({"start": id})).unwrap();
                     out.flush().unwrap();
                 }
-                let r = if cmd == "tmpl" {
-                    tmpl::run_case(&v)
-                } else {
-                    css::run_case(&v)
+                let r = match cmd {
+                    "tmpl" => tmpl::run_case(&v),
+                    "total" => total::run_case(&v),
+                    _ => css::run_case(&v),
                 };
                 serde_json::to_writer(&mut out, &r).unwrap();
                 out.write_all(b"\n").unwrap();
